@@ -54,11 +54,17 @@ Section TzLocal.
     let '(w, f) := l_fromutc u in (w, f, l_utcoffset w f, l_dst w f, l_tzname w f).
 End TzLocal.
 
-(* the C library instantiated by the POSIX specification itself *)
+(* the C library instantiated by the POSIX specification itself.  What tzlocal.__init__ captures
+   comes from CPython's time module, which fills (timezone, altzone) and tzname with the pair
+   (smaller UTC offset, larger UTC offset) -- it compares the January and July zones and swaps
+   them "for the southern hemisphere" -- NOT with the (tm_isdst = 0, tm_isdst = 1) pair: for a
+   negative saving the two are exchanged. *)
 Definition tzlocal_of (r : posix) :=
   match r.(p_dst) with
   | None => (r.(p_off), r.(p_off), false, r.(p_name), r.(p_name))
-  | Some ds => (r.(p_off), ds.(d_off), true, r.(p_name), ds.(d_name))
+  | Some ds =>
+      if r.(p_off) <=? ds.(d_off) then (r.(p_off), ds.(d_off), true, r.(p_name), ds.(d_name))
+      else (ds.(d_off), r.(p_off), true, ds.(d_name), r.(p_name))
   end.
 
 Definition tzlocal_observe_wall (r : posix) (w : Z) (f : bool) : Z * Z * list Z :=
